@@ -94,6 +94,15 @@ class Outcome:
         self.node = node
 
 
+class ProgramRaise(Exception):
+    """the analysed function itself would raise here (KeyError, IndexError): an outcome of the program, not an analysis gap"""
+
+    def __init__(self, what, node):
+        super().__init__(what)
+        self.what = what
+        self.node = node
+
+
 class _Ret(Exception):
     pass
 
@@ -148,6 +157,15 @@ class PW:
         return states
 
     def stmt(self, st, env, dom, outs):
+        try:
+            return self._stmt(st, env, dom, outs)
+        except ProgramRaise as e:
+            if isinstance(st, (ast.If, ast.For, ast.While, ast.With, ast.Try)) and e.node not in list(ast.walk(getattr(st, 'test', None) or getattr(st, 'iter', None) or ast.Pass())):
+                raise                      # raised by a nested statement that is not in this statement's own header: already handled there
+            outs.append(Outcome(dom, 'raise', e.what, e.node))
+            return []
+
+    def _stmt(self, st, env, dom, outs):
         self.steps += 1
         if isinstance(st, ast.Return):
             for (v, d) in self.eval_split(st.value, env, dom) if st.value is not None else [(None, dom)]:
@@ -368,9 +386,11 @@ class PW:
                 for kk, vv in base.items():
                     if kk == k:
                         return vv
-                raise AnalysisError(f'{self.rel}:{n.lineno} KeyError {k!r}')
+                raise ProgramRaise(f'KeyError: {k!r} is not a key of {unparse(n.value, 40)}', n)
             try:
                 return base[k]
+            except (IndexError, KeyError) as e:
+                raise ProgramRaise(f'{type(e).__name__}: {unparse(n, 50)} with index {k!r}', n)
             except Exception as e:
                 raise AnalysisError(f'{self.rel}:{n.lineno} subscript failed: {e} ({unparse(n)} with index {k!r})')
         if isinstance(n, (ast.Tuple, ast.List)):
